@@ -67,6 +67,24 @@ def run(ctx):
                         "PIN field prefix " + o.from_nibbles(o.pin_field4_nibbles(pin, b"")[:16]).hex(), pf.hex())
                 lines.append(core.model_line("encipher_pinblock_iso_4", (key, pin, pan4, pf[8:])))
                 expect.append("OK " + core.show(e4[1]))
+    # AES keys that are also valid hex / decimal text (a binary key must never be re-interpreted as text)
+    from harness import gens as G
+    for ks in (16, 24, 32):
+        for _ in range(ctx.n(6, 30)):
+            key = G.text_like_bytes(rng, ks)
+            pin, pan4 = rnd_digits(rng, rng.randrange(4, 13)), rng.choice(pans4)
+            e4 = call(pinblock.encipher_pinblock_iso_4, key, pin, pan4)
+            evals += 1
+            if e4[0] != "OK":
+                bad("format 4 encipher failed", {"fn": "encipher_4", "args": [key.hex(), pin, pan4]}, "OK", repr(e4))
+                continue
+            panf = o.from_nibbles(o.pan_field4_nibbles(pan4))
+            pf = o.D("aes", key, o.xor(o.D("aes", key, e4[1]), panf))
+            if o.nibbles(pf)[:16] != o.pin_field4_nibbles(pin, b"")[:16]:
+                bad("format 4 block is not E(E(PIN field) xor PAN field) under the given (text-like) key", {"fn": "encipher_4", "args": [key.hex(), pin, pan4]},
+                    "PIN field prefix " + o.from_nibbles(o.pin_field4_nibbles(pin, b"")[:16]).hex(), pf.hex())
+            lines.append(core.model_line("encipher_pinblock_iso_4", (key, pin, pan4, pf[8:])))
+            expect.append("OK " + core.show(e4[1]))
     for pan4 in pans4:
         evals += 1
         seen.add(("pan4", pan4))
@@ -76,6 +94,9 @@ def run(ctx):
             bad("format 4 PAN field layout", {"fn": "pan_field_4", "args": [pan4]}, exp.hex(), repr(g))
         lines.append(core.model_line("encode_pan_field_iso_4", (pan4,)))
         expect.append("OK " + core.show(exp))
+    from harness.props.pinblock_common import threaded_encoders
+    dist["encoder_calls_under_threads"] = threaded_encoders(ctx.rng, viol)
+    evals += dist["encoder_calls_under_threads"]
     from harness.props.pinblock_common import after_rejected_calls
     dist["calls_after_rejected_calls"] = after_rejected_calls(rng, viol)
     evals += dist["calls_after_rejected_calls"]
